@@ -102,7 +102,7 @@ func init() {
 		Cases: func(tier string) int { return tierN(tier, 1200, 60000) },
 		Rule: "case = one history (10-45 ops quick, up to 100 thorough) rich in commits without writes, empty and one-leaf trees, pruning, rollbacks to a version, reopenings at the latest or an OLDER version followed by re-commits (identical and different writes), initial version unset/1/5/63/64/1000000, invalid version arguments (12%). " +
 			"After every step: commit numbering vs model; for every v in {0,1,first-2..latest+1}: VersionExists, AvailableVersions membership, GetImmutable, GetLatestVersion, GetVersioned outside the range, all on the live handle AND on a freshly opened handle (reopen), plus LoadVersion(v) on a fresh handle; a re-commit of an existing version number must succeed iff the reference tree R says the root hash is identical, a rejected re-commit or rejected deletion must leave the raw store byte-identical, and after every rejected request (load of a missing version, rollback to one, different re-commit, deletion of the latest) the same handle must answer the full model read battery of its working state incl. uncommitted writes (\"leaves the tree usable\") and goes on with the history. " +
-			"distinct = hash(config, ops); non-trivial = >=3 commits and >=1 of {prune, rollback-to-version, load of an older version, re-commit of an existing version}.",
+			"Every 5th case uses its first handle without an initial Load(): a prefix of 3-6 operations writes to the fresh tree, then issues LoadVersion on the store that still has no version (nothing is loaded, the working tree is kept), with or without a Rollback after it, and the planned history follows. distinct = hash(config, ops); non-trivial = >=3 commits and >=1 of {prune, rollback-to-version, load of an older version, re-commit of an existing version}.",
 		Assumptions: []string{"model M for the version range; reference tree R decides whether a re-commit is identical", "LoadVersion(v<=0) means 'latest' (library convention)"},
 		Run: func(c *fw.Ctx) {
 			w := map[string]int{"set": 26, "rm": 10, "save": 30, "rollback": 3, "reopen": 8, "load": 8, "delto": 9, "lfo": 4, "delfrom": 2, "redo": 4}
@@ -112,6 +112,7 @@ func init() {
 				p.MaxOps = 100
 			}
 			pl := v1x.MakePlan(c.Rng, p)
+			v1x.LazyPrefix(pl, c.Index)
 			c.Res.Digest = fw.DigestOf(pl.Cfg, pl.Summary(1000))
 			if c.Index < 2 {
 				c.Res.Sample = pl.Summary(60)
